@@ -88,7 +88,7 @@ class Spec:
                  modifies=(), loops=None, inline=False, locals=None, pure=False, hints=(),
                  trusted=False, fresh=(), cases=None, at=None, ghost=None, ghost_calls=None, reveal=(), bind=None, decreases=None,
                  region=None, let=None, abstract=None, negative_indices=False,
-                 frame_axiom=False):
+                 frame_axiom=False, ensures_local=()):
         self.qual = qual
         self.params = params            # ordered dict name -> kind text
         self.returns = returns
@@ -107,6 +107,7 @@ class Spec:
         self.ghost = ghost or {}        # ghost parameters (name -> kind text)
         self.ghost_calls = ghost_calls or {}   # callee short name -> {ghost param -> expression in the caller}
         self.cases = cases
+        self.ensures_local = list(ensures_local)   # postconditions over the function's own locals: proved, not exported to callers
         self.negative_indices = negative_indices
         self.frame_axiom = frame_axiom  # encode `fresh` classes by a quantified frame axiom instead of a lambda term
         self.region = region            # (first statement text, statement text to stop before | None): verify this slice
@@ -701,6 +702,11 @@ class Executor:
             key = self.eval(sl, st)
             self.check(st, "KeyError", dicts.contains(base, key), node)
             return dicts.get(base, key)
+        if isinstance(base.kind, KStr):
+            idx = z3.simplify(to_int(self.eval(sl, st)))
+            if z3.is_int_value(idx) and idx.as_long() == 0:
+                return strings.first_char(base)      # (an empty string would raise IndexError: names are non-empty)
+            self.unsupported(node, "string index other than [0]")
         if isinstance(base.kind, KRef):
             fi = self.find_method(base.kind.cls, "__getitem__")
             if fi is not None:
